@@ -17,12 +17,12 @@ PLAN = dict(
                     "reference semantics); (2) Rust compile_prog output = Gallina model output (canonical printing); (3) ALWAYS "
                     "the executable property on the RUST output: run_fun(checked program) vs run_core(Rust Core program) on "
                     "every tuple whose source run ends normally within the fuel -> VIOL class="
-                    "call-to-main (known finding: main has no return continuation, calls of main pass one) | "
+                    "call-to-main (repaired by <commitmain>: when main is called it gets a return continuation and the program starts at a fresh entry label; a recurrence is a violation) | "
                     "mistyped-goto-unbound (repaired by 126604b; a recurrence is a violation) | capture-under-binder (repaired by d5d4151: a continuation "
                     "that mentions a name is kept outside of a let / pattern binder of that name; a recurrence is a violation) | semantic-mismatch; mismatches of programs outside the precondition "
                     "(effects in argument positions) are SKIPped.  Theorems: fresh names for fresh_name and for the whole "
-                    "translation (all term forms), structural lemmas, the call-to-main witness refuting the unguarded and the "
-                    "Barendregt-guarded statements, the capture witness as a regression statement about the translation before the fix "
+                    "translation (all term forms), structural lemmas, the call-to-main witness as a regression statement about the translation before the fix (it refuted the unguarded and the "
+                    "Barendregt-guarded statements), the capture witness as a regression statement about the translation before the fix "
                     "(and, now inside the guard, simulated by the theorem), and SEMANTIC PRESERVATION for all term forms incl. codata "
                     "(C02_fun2core_correct_fragment2: step-indexed forward simulation CEK vs Core machine; any number of definitions, calls, "
                     "recursion, shared continuations, data/case, labels/goto, new/destructors/by-name bindings; guard: scope check + kind discipline, "
